@@ -1357,6 +1357,39 @@ def std_points(E, prm, binary):
             out.append(P)
     return G, out
 
+def create_group_check(c, G, q, h):
+    """ecCreateGroup stores base point, order and cofactor exactly (and rejects cofactor 0 / an order longer than n + 1 words)"""
+    L, n, W, no = c.L, c.n, c.W, c.no
+    bad = []
+    with vf.Arena(L) as T:
+        stack = gbuf(T, L.sz('ecCreateGroup_deep', c.fdeep))
+        xb, yb = T.buf(G[0].to_bytes(no, 'little')), T.buf(G[1].to_bytes(no, 'little'))
+        qlen = (q.bit_length() + 7) // 8
+        info = T.buf(16 * 8, 0)
+        for olen in (qlen, (n + 1) * W):
+            ob = T.buf(q.to_bytes(olen, 'little'))
+            ok = L.boolean('ecCreateGroup', c.ec, xb, yb, ob, olen, h, stack)
+            L.call('vh_c06_ec_info', c.ec, info)
+            v = struct.unpack('<16Q', info.get())
+            import ctypes
+            base = ctypes.string_at(v[7], 2 * n * W)
+            order = int.from_bytes(ctypes.string_at(v[8], (n + 1) * W), 'little')
+            if not ok or base != c.elem(G[0]) + c.elem(G[1]) or order != q or v[9] != h:
+                bad.append('order_len=%d: ret=%d base ok=%s order=%#x cofactor=%d' % (olen, ok, base == c.elem(G[0]) + c.elem(G[1]), order, v[9]))
+        ob = T.buf(q.to_bytes(qlen, 'little'))
+        if L.boolean('ecCreateGroup', c.ec, xb, yb, ob, qlen, 0, stack):
+            bad.append('cofactor 0 accepted')
+        big = T.buf(((1 << (8 * (n + 1) * W)) + 1).to_bytes((n + 1) * W + 1, 'little'))
+        if L.boolean('ecCreateGroup', c.ec, xb, yb, big, big.n, h, stack):
+            bad.append('order of n + 2 words accepted')
+        L.boolean('ecCreateGroup', c.ec, xb, yb, ob, qlen, h, stack)
+        if gbad(stack):
+            bad.append('wrote past ecCreateGroup_deep octets of the stack')
+    if bad:
+        return ('ecCreateGroup', {'cfg': c.cfg, 'kind': 'group_create', 'spec': list(c.spec), 'G': list(G), 'q': hex(q), 'h': h},
+                'ecCreateGroup [%s, cfg %s]: %s' % (spec_str(c.spec), c.cfg, '; '.join(bad)))
+    return None
+
 def std_cell(case):
     """one standard curve, all configurations (the reference results are shared between them)"""
     fam, name, tier = case['fam'], case['name'], case['tier']
@@ -1386,6 +1419,7 @@ def std_cell(case):
             return mulc[(k, P)]
         W, n = c.W, c.n
         nq = (q.bit_length() + 8 * W - 1) // (8 * W)
+        addv(create_group_check(c, G, q, h)); calls += 5
         # (a) function table on all ordered pairs of the boundary set
         In = [None] + pts
         n0 = calls
@@ -1697,6 +1731,10 @@ def replay(rec):
     if k == 'swu':
         c = get_ctx(rec['cfg'], tspec(rec['spec']))
         v = swu_check(c, int(rec['s'], 16))
+        return v[2] if v else None
+    if k == 'group_create':
+        c = get_ctx(rec['cfg'], tspec(rec['spec']))
+        v = create_group_check(c, tuple(rec['G']), int(rec['q'], 16), rec['h'])
         return v[2] if v else None
     if k == 'params':
         L = common.lib(rec['cfg'])
